@@ -148,6 +148,16 @@ class CallGen:
         return f
 
     @staticmethod
+    def failing_registration(f):
+        """The same name and signature with a body the compiler rejects (unsupported loop) - a registration that
+        raises must leave nothing behind, so the corrected body registered afterwards is the one that runs."""
+        good = cref.show_stmts(f["body"])
+        p0 = f["params"][0][1]
+        return {"name": f["name"], "ret": cref.show_type(f["ret"]),
+                "params": [f"{cref.show_type(t)} {n}" for t, n in f["params"]],
+                "body": "{ while (" + p0 + ") { " + p0 + " = " + p0 + " - 1; } " + good + " }"}
+
+    @staticmethod
     def registration(f):
         return {"name": f["name"], "ret": cref.show_type(f["ret"]),
                 "params": [f"{cref.show_type(t)} {n}" for t, n in f["params"]],
@@ -181,11 +191,18 @@ class CallGen:
         bundled = [dict(v, name=k) for k, v in cref.BUNDLED.items() if k != "conv_round"] if allow_bundled else []
         pool = user * 3 + bundled
         form = ch.weighted([("single", 5), ("two_calls", 5), ("parked", 4), ("arg_call", 3), ("three_calls", 2), ("cond_calls", 1),
-                            ("const_cond_calls", 2)], "cform")
+                            ("const_cond_calls", 2), ("reassign", 3)], "cform")
         stmts = []
         srcs = ["RssV", "RttV"]
 
         def load_arg(P, k):
+            if ch.chance(1, 4, "castarg"):
+                # an explicit cast as the argument expression: variable type V -> cast type C -> parameter type P
+                C = self.pick(ALL_T, lambda c: not (self.cfg == "A" and f5a(c, P)), "C")
+                V = self.pick(ALL_T, lambda t: not f5a(t, C), "V")
+                v = fresh(k)
+                stmts.append(("decl", V, v, ("cast", V, ("reg", srcs[k % 2], ("s", 64)))))
+                return ("cast", C, ("var", v))
             A = self.arg_for(P, srcs[k % 2], "A")
             v = fresh(k)
             stmts.append(("decl", A, v, ("cast", A, ("reg", srcs[k % 2], ("s", 64)))))
@@ -231,6 +248,21 @@ class CallGen:
             out = fresh(5)
             stmts.append(("decl", T, out, e))
             outs = [(out, T)]
+        elif form == "reassign":
+            # the same routine called twice with the same *variable*, which is assigned in between
+            one = [f for f in pool if len(f["params"]) == 1]
+            f = ch.choice(one, "f") if one else dict(cref.BUNDLED["clz32"], name="clz32")
+            P = f["params"][0][0]
+            A = self.arg_for(P, "RssV", "A")
+            x = fresh(0)
+            stmts.append(("decl", A, x, ("cast", A, ("reg", "RssV", ("s", 64)))))
+            a = fresh(3)
+            stmts.append(("decl", f["ret"], a, ("call", f["name"], [("var", x)])))
+            stmts.append(("assign", x, ("cast", A, ("reg", "RttV", ("s", 64)))))
+            out = fresh(5)
+            stmts.append(("decl", f["ret"], out, ("call", f["name"], [("var", x)])))
+            outs = [(a, f["ret"]), (out, f["ret"])]
+            uses = [f["name"]]
         elif form == "parked":
             f = ch.choice(pool, "f")
             g = ch.choice(pool, "g")
